@@ -186,7 +186,7 @@ def batch_main(argv):
     from .runner import run_many
 
     jobs = json.load(open(a.jobs))
-    recs = run_many(_job, jobs, workers=a.workers, wall=900)
+    recs = run_many(_job, jobs, workers=a.workers, wall=int(os.environ.get('VERIF_WORLD_WALL', '400')))
     out = []
     for r in recs:
         o = {"id": r["arg"]["id"], "status": r["status"]}
